@@ -423,6 +423,23 @@ impl<K: Kind> Scenario for Uni<K> {
                     }
                 }
             }
+            "stalecache" => {
+                // use the shared count cache for another variable count first (`sat_count` with
+                // `vars`): the next `pick_cube_uniform` / count must notice that its entries are
+                // not valid for `num_levels` variables
+                let f = match self.h.get(w[1]) {
+                    Some(f) => f.clone(),
+                    None => return "bad-op".into(),
+                };
+                let vars: u32 = match w.get(2).and_then(|x| x.parse().ok()) {
+                    Some(v) if w.len() == 3 => v,
+                    _ => return "bad-op".into(),
+                };
+                self.cache.cache_all = true;
+                let _: F64 = f.sat_count(vars, &mut self.cache);
+                ctx.count("stalecache");
+                "ok".into()
+            }
             "pickuni" => {
                 let (f, t) = match (self.h.get(w[1]), self.tt.get(w[1])) {
                     (Some(f), Some(t)) => (f.clone(), t.clone()),
@@ -548,8 +565,12 @@ fn ops_for(w: &mut dyn Write, rng: &mut Rng, name: &str, n: u32, seqs: u32, real
     for _ in 0..seqs {
         writeln!(w, "pickseq {} {}", name, fracs(rng, n)).unwrap();
     }
-    for _ in 0..reals {
+    for i in 0..reals {
         let seed = rng.next();
+        if i % 2 == 1 {
+            // the count cache was last used for another number of variables
+            writeln!(w, "stalecache {} {}", name, n + 1 + rng.below(12) as u32).unwrap();
+        }
         writeln!(w, "pickreal {} {} {}", name, seed, real_draws(seed, n)).unwrap();
     }
     if uni > 0 {
